@@ -26,13 +26,23 @@ class SimStoreError(Exception):
     """Item access failed in the simulated store."""
 
 
+ERR_KINDS = {
+    "store": SimStoreError,
+    # a lazily loading store may fail with the very classes the engine suppresses for *missing* items
+    "key": KeyError,
+    "index": IndexError,
+    "type": TypeError,
+    "value": ValueError,
+}
+
+
 class Store:
     """Per-run store state shared by all wrapped containers."""
 
     def __init__(self, choose: Callable[..., int], p_get: float = 0.4) -> None:
         self.choose = choose
         self.p_get = p_get
-        self.failing: Dict[Tuple[str, str], None] = {}
+        self.failing: Dict[Tuple[str, str], str] = {}
         self.sync_gets = 0
         self.async_gets = 0
         self.suspended = 0
@@ -46,11 +56,16 @@ class Store:
     def fail_site(self, path: str, key: Any) -> bool:
         return (path, repr(key)) in self.failing
 
+    def _fail(self, path: str, key: Any) -> None:
+        kind = self.failing.get((path, repr(key)))
+        if kind is not None:
+            self.errors_fired += 1
+            raise ERR_KINDS.get(kind or "store", SimStoreError)(f"store failure at {path}[{key!r}]")
+
     def sync_get(self, path: str, key: Any) -> None:
         self.sync_gets += 1
-        if self.failing and self.fail_site(path, key):
-            self.errors_fired += 1
-            raise SimStoreError(f"store failure at {path}[{key!r}]")
+        if self.failing:
+            self._fail(path, key)
 
     async def async_get(self, path: str, key: Any) -> None:
         self.async_gets += 1
@@ -71,9 +86,8 @@ class Store:
                         await asyncio.sleep(d)
                 finally:
                     self.in_get -= 1
-        if self.failing and self.fail_site(path, key):
-            self.errors_fired += 1
-            raise SimStoreError(f"store failure at {path}[{key!r}]")
+        if self.failing:
+            self._fail(path, key)
 
 
 class SimMap(Mapping):  # type: ignore[type-arg]
